@@ -434,7 +434,7 @@ func Mutate(r *rand.Rand, argv []string) []string {
 			i := r.Intn(len(a) + 1)
 			a = append(a[:i], append([]string{"--"}, a[i:]...)...)
 		case 5:
-			// a dash-prefixed number right after a dash-prefixed token: never a detached value
+			// a dash-prefixed number, or a lone dash, right after a dash-prefixed token: never a detached value
 			var cand []int
 			for i, t := range a {
 				if len(t) > 1 && t[0] == '-' && t != "--" && !strings.Contains(t, "=") {
@@ -443,7 +443,7 @@ func Mutate(r *rand.Rand, argv []string) []string {
 			}
 			if len(cand) > 0 {
 				i := cand[r.Intn(len(cand))] + 1
-				a = append(a[:i], append([]string{[]string{"-5", "-0", "-.5", "-1e3"}[r.Intn(4)]}, a[i:]...)...)
+				a = append(a[:i], append([]string{[]string{"-5", "-0", "-.5", "-1e3", "-", "-"}[r.Intn(6)]}, a[i:]...)...)
 			}
 		}
 	}
